@@ -33,7 +33,9 @@ UNITS = [
     Unit("ss.add_op_state", "add_op_state.c", enforce="add_op_state",
          lifts={"body": Lift(HPP, r"bool add_op_state\(", rules=[
              Call(r"\bop_state_head\.load", "atomic_load_ptr(&self->op_state_head)", None),
-             Call(r"\bop_state_head\.compare_exchange_weak", "atomic_cas_weak_ptr(&self->op_state_head, &{0}, {1})", 1),
+             Call(r"\bop_state_head\.compare_exchange_(weak|strong)", "atomic_cas_{h1}_ptr(&self->op_state_head, &{0}, {1})", None),
+             Call(r"\bop_state_head\.store", "atomic_store_ptr(&self->op_state_head, {0})", None),
+             Call(r"\bop_state_head\.exchange", "atomic_exchange_ptr(&self->op_state_head, {0})", None),
              THIS], loops={1: LOOP_ADD, "count": 1})},
          funcs=[SSB + "add_op_state"], min_obligations=40),
 ]
@@ -51,6 +53,7 @@ __CPROVER_assigns(current, g_pos, g_victim_calls, g_self_dead, self->op_state_he
 __CPROVER_loop_invariant(0 <= g_pos && g_pos <= g_n && g_n <= CHAIN_MAX)
 __CPROVER_loop_invariant(current == NODE(g_pos))
 __CPROVER_loop_invariant(g_pos >= g_n || CELL(g_pos).next == NODE(g_pos + 1))
+__CPROVER_loop_invariant(g_pos + 1 >= g_n || CELL(g_pos + 1).next == NODE(g_pos + 2))
 __CPROVER_loop_invariant(g_victim_calls == ((0 <= g_k && g_k < g_pos) ? 1 : 0))
 __CPROVER_loop_invariant(!g_self_dead || g_pos == g_n)
 __CPROVER_loop_invariant(g_self_dead || self->op_state_head == SENTINEL(self))
@@ -227,7 +230,50 @@ UNITS += [
 ]
 
 META = {
-    "trusted_base": [],
-    "assumptions": [],
-    "not_decided": [],
+    "trusted_base": [
+        "specs/C04/add_op_state.c atomic_load_ptr/atomic_cas_weak_ptr/interfere: std::atomic<void*> op_state_head as an indivisible word; "
+        "before every access the environment may replace it by ANY bit pattern the rely allows (VX_ASSUME(RELY): the sentinel `this` is "
+        "final, nobody else installs the caller's unpublished op_state); compare_exchange_weak may fail spuriously",
+        "specs/C04/done.c atomic_exchange_ptr/interfere: before the exchange other threads only push (VX_ASSUME(m > g_n): the chain gets "
+        "longer); op_continuation: T stub (asserts 'next live node of the captured chain', counts the symbolic victim, destroys the node, "
+        "may destroy *this after the last node); it materialises the well-formed chain (node j's next is node j+1 -- what add_op_state's "
+        "postcondition op->next == lin_old establishes push by push) lazily, two nodes ahead of the traversal, by writing (no assumption) "
+        "and asserts that the link of the node being continued is intact",
+        "specs/C04/done.c storage abstraction: node j of the (arbitrarily long) chain lives in g_cell[j & 3]; a traversal step holds two node "
+        "pointers, any 4 consecutive nodes are distinct objects, storage is reused only after the node died; cross-checked by the bounded unit "
+        "ss.done.b3 on <= 3 distinct harness-built nodes",
+        "specs/C04/{dtor,mutex,sender}.c sp_*: std::shared_ptr/std::allocate_shared modelled as a plain pointer + ghost use count in the pointee "
+        "(copy +1, reset/destruction -1, move 0, pointee destroyed at 0, allocate_shared returns a fresh value-initialised group with count 1); "
+        "shared_ptr<T> value = opaque token + ghost use count",
+        "specs/C04/dtor.c ss_done, specs/C04/mutex.c ss_set_next_state/ss_set_value/ss_done/sender_make and the destructor contract inlined "
+        "in sp_release: callee stubs that assert the callee's preconditions (its PIKA_ASSERTs, order predicates) and bump ghost counters; the "
+        "callee bodies are verified by ss.done, ss.set_next_state, ss.set_value, ss.dtor*",
+        "specs/C04/sender.c rcv_set_value/rcv_set_error (receiver completion functions: opaque, counted, set_value may throw, after a "
+        "completed signal the operation state may be destroyed), ss_add_op_state (nondeterministic result per the contract proved in "
+        "ss.add_op_state; after `true` a concurrent done() may complete and destroy the operation state), start_detached_sender "
+        "(start_detached connects the rvalue sender -- unit sender.connect -- and starts it), wrapper_make (access wrapper = holder of one "
+        "group reference)",
+        "spec.py Census: textual census of the header -- done() and set_next_state() have no call sites outside the verified bodies "
+        "(destructor, 4 x read/readwrite); NoCxxLeft: no untranslated `auto`/std:: spelling reaches the C compiler",
+    ],
+    "assumptions": [
+        "A-CLOSED (census, see trusted base): op_state_head is written only by add_op_state and done; done() is called only by the destructor "
+        "of the predecessor group and by the first-access branch of read()/readwrite()",
+        "ss.done requires 'the queue is not closed yet' (done() at most once per group): discharged per call site by ss.dtor* (requires the "
+        "successor was not released, proved from mutex.* : a linked group is never released by the first-access branch) -- the composition "
+        "of these unit contracts into the all-histories statement (DESIGN C04 'L4') is the paper history-induction, not machine checked",
+        "ss.dtor.refs_gt1 ASSUMES the authors' PIKA_ASSERT(next_state.use_count() > 1): no operation state of the successor group was "
+        "connected and then destroyed without being started (ss.dtor, without this assumption, fails: see report)",
+        "ghost reference counters are bounded by 10^9 so that ghost arithmetic cannot overflow",
+        "payloads (wrapped value, receivers, exception_ptr, allocator) are opaque tokens; template parameters R/AccessType do not influence "
+        "the lifted bodies (the two specialisations' sender code is lifted separately and is textually identical)",
+    ],
+    "not_decided": [
+        "std::shared_ptr / allocator behaviour (trusted model), receivers' own behaviour, start_detached's implementation",
+        "liveness ('eventually granted') beyond: the release step of a group always calls done() of its successor exactly once, done() "
+        "continues every queued operation state exactly once, start() either queues or continues inline",
+        "adequacy of the memory orders (acquire/acq_rel) -- A-SC",
+        "defaulted special members (mutex/sender/wrapper move and copy), access wrappers' get()/get_value() (PIKA_ASSERT(value) only)",
+        "L4 composition lemma (request-order grants with read grouping over whole histories) as a machine-checked lemma harness",
+    ],
 }
